@@ -397,6 +397,7 @@ _PY_TEXT = {
     "PY2": "no one-shot iterator (generator expression, map / filter / zip / reversed / enumerate object bound to a name) is consumed twice or inside a repeated loop",
     "PY3": "no container created outside a loop is stored into a collection and then changed in place in that loop without being rebound (all stored entries would be one object)",
     "PY4": "no mutable default argument that the function changes or keeps, no `[<mutable>] * n`, no dict.fromkeys(keys, <mutable>)",
+    "PY6": "no float-typed value (end_time, start_time, duration ...) is stored into an array created with an integer dtype or integer fill value (numpy truncates silently)",
     "PY5": "no truth test of a value declared Optional[T] where T has falsy legitimate values (0, '', a zero-valued IntEnum member, an object with __len__ / __bool__): None is tested with `is None`",
 }
 
